@@ -229,7 +229,9 @@ func TestC20_EnvelopeGrid(t *testing.T) {
 			for tg := 0; tg <= 30; tg++ {
 				tags = append(tags, tg)
 			}
-			tags = append(tags, 61, 98, 1818)
+			// 18 written in every long form is still 18; numbers that merely END
+			// in 0x12, and 18 wrapped in other tags, are not
+			tags = append(tags, 61, 98, 1818, 274, 530, 0x6212, 65554, 0x10012, 1<<32+18, 0x1212, 5579918, 2418, 618)
 			for _, tg := range tags {
 				for n := 0; n <= 6; n++ {
 					items := append(elems(), extra...)[:n]
@@ -237,6 +239,12 @@ func TestC20_EnvelopeGrid(t *testing.T) {
 					switch {
 					case tg == 1818:
 						node = icbor.Tag(18, icbor.Tag(18, node))
+					case tg == 5579918:
+						node = icbor.Tag(55799, icbor.Tag(18, node))
+					case tg == 2418:
+						node = icbor.Tag(55799, icbor.Tag(55799, icbor.Tag(18, node)))
+					case tg == 618:
+						node = icbor.Tag(6, icbor.Tag(18, node))
 					case tg >= 0:
 						node = icbor.Tag(uint64(tg), node)
 					}
